@@ -1123,6 +1123,11 @@ theorem step_ok (s s' : St) (e : Ev) (ha : AllRec s) (hs : step s e = some s') :
     split at hs
     · simp at hs; subst hs; exact ⟨allRec_frame ha rfl rfl, fun _ => steps_of_proj_eq rfl⟩
     · cases hs
+  | envDo c =>
+    simp only [step, stepI] at hs
+    split at hs
+    · simp at hs; subst hs; exact ⟨allRec_frame ha rfl rfl, fun _ => steps_of_proj_eq rfl⟩
+    · cases hs
   | envCancelW a =>
     simp only [step, stepI] at hs
     split at hs
